@@ -87,6 +87,8 @@ where
             Ok(None) => {
                 // The current process has child processes, but none of them has
                 // changed its state. Wait for a signal.
+                #[cfg(feature = "verif-hooks")]
+                yash_env::system::r#virtual::sim_hook::preempt_point_current("wait_builtin").await;
                 let signals = env.wait_for_signals().await;
 
                 // If SIGINT is caught and defaulted, interrupt the built-in
